@@ -964,7 +964,9 @@ impl World {
 			let redelivered = self.nodes[n].incarnation > 0;
 			if d <= h && !redelivered {
 				let msg = format!("node {} pay {}: claim_deadline {} not above current height {}", n, pay, d, h);
-				self.violate("C04", "C04-1 PaymentClaimable without a claim window", msg);
+				self.violate("C04", "C04-1 PaymentClaimable without a claim window", msg.clone());
+				// the same fact is C08's "never shows as claimable an HTLC that expires too soon"
+				self.violate("C08", "C08-2 PaymentClaimable without a claim window", msg);
 			}
 		}
 	}
@@ -1152,7 +1154,10 @@ impl World {
 				);
 			}
 		}
-		let comparable = matches!(r, Admit::Accepted | Admit::Replaced(_) | Admit::AlreadyKnown | Admit::Policy(_));
+		// transactions built by the application from BumpTransaction events are judged by the feerate
+		// the events ask for (onchain.rs); their absolute fee wobbles by a few sat with signature sizes
+		let comparable = matches!(r, Admit::Accepted | Admit::Replaced(_) | Admit::AlreadyKnown | Admit::Policy(_))
+			&& built_by_monitor;
 		if let Some(fee) = self.chain.fee_of(tx).filter(|_| comparable) {
 			if fee >= 0 && !tx.input.is_empty() {
 				let fee = fee as u64;
